@@ -27,6 +27,8 @@ def lemmas(rmul, rdiv):
         ("div-mul-cancel", [x, t], lambda m, d: z3.Implies(t > 0, m(d(x, t), t) == x), lambda m, d: [m(d(x, t), t)]),
         ("div-le-1", [x, t], lambda m, d: z3.Implies(z3.And(t > 0, x <= t, x >= 0), z3.And(d(x, t) <= 1, d(x, t) >= 0)), lambda m, d: [d(x, t)]),
         ("mul-le-when-factor-le-1", [x, t], lambda m, d: z3.Implies(z3.And(x >= 0, t >= 0, t <= 1), m(x, t) <= x), lambda m, d: [m(x, t)]),
+        ("mul-le-iff-le-div", [x, y, t], lambda m, d: z3.Implies(t > 0, (m(x, t) <= y) == (x <= d(y, t))),
+         lambda m, d: [z3.MultiPattern(m(x, t), d(y, t))]),
         ("square-over-self", [x], lambda m, d: z3.Implies(x > 0, m(x, d(x, x)) == x), lambda m, d: [m(x, d(x, x))]),
     ]
 
